@@ -878,7 +878,47 @@ pub fn replay(v: &Value, st: &mut Stats) -> Result<(), String> {
     Ok(())
 }
 
+/// source scan: node-lock acquisitions in the sync flavours without a lock_point line in the 8 lines before
+pub fn unhooked_sites() -> (usize, Vec<String>) {
+    let mut total = 0;
+    let mut missing = vec![];
+    for m in ["sync_digraph", "sync_ungraph"] {
+        let mut stack = vec![std::path::PathBuf::from("/repo/src").join(m)];
+        while let Some(d) = stack.pop() {
+            let Ok(rd) = std::fs::read_dir(&d) else { continue };
+            for e in rd.filter_map(|e| e.ok()) {
+                let p = e.path();
+                if p.is_dir() {
+                    stack.push(p);
+                } else if p.extension().map_or(false, |x| x == "rs") {
+                    let text = std::fs::read_to_string(&p).unwrap_or_default();
+                    let lines: Vec<&str> = text.lines().collect();
+                    for (i, l) in lines.iter().enumerate() {
+                        let t = l.trim();
+                        if t.starts_with("//") {
+                            continue;
+                        }
+                        if [".read()", ".write()", ".try_read()", ".try_write()"].iter().any(|k| t.contains(k)) {
+                            total += 1;
+                            if !lines[i.saturating_sub(8)..i].iter().any(|b| b.contains("lock_point")) {
+                                missing.push(format!("{}:{}", p.display(), i + 1));
+                            }
+                        }
+                    }
+                }
+            }
+        }
+    }
+    (total, missing)
+}
+
 pub fn run(ctx: &mut Ctx) {
+    let (sites, unhooked) = unhooked_sites();
+    ctx.stats.extra.insert("lock_sites_in_source".into(), json!(sites));
+    ctx.stats.extra.insert("lock_sites_without_lock_point".into(), json!(unhooked));
+    if !unhooked.is_empty() {
+        println!("note: {} node-lock acquisition(s) without a lock_point line ({}): the scheduler cannot interleave there; a blocking one shows up as 'stuck', the real-thread tier still applies", unhooked.len(), unhooked.join(", "));
+    }
     ctx.rule = "cases = (scenario, schedule): scenario = 3 shared sync nodes, an initial edge set, 2-3 threads x 1-2 calls out of connect / try_connect / disconnect (every operand pair incl. self) / isolate / query bundle / traversal bundle; schedule = the order in which threads pass the lock points before each node-lock acquisition, owned by the harness. (a) 2 threads x 1 call: every pair of call shapes that share a node (thorough: all pairs) x 8 initial edge sets, de-duplicated up to node renaming, ALL schedules of each; (b) thorough: 2x2 and 3x1 scenarios free of the listed known-bad call pairs, all schedules up to a per-scenario cap, plus seeded random schedules of larger scenarios; (c) single-threaded lock-discipline pass (re-entrant read detector) and a free-running real-thread tier: every query/traversal bundle against an edge-toggling writer on the same node, progress-counter based stall detection in a child process. Oracle per execution: every call returns (no deadlock = no state in which all unfinished threads wait for held locks), no panic, no poisoned lock, and (final adjacency state, return values of the mutating calls) is the outcome of some sequential order respecting thread order (allowed-successor semantics for disconnect on parallel edges; undirected lists compared as multisets); mirror/symmetry at quiescence. Non-trivial = two calls on different threads share a node and at least one mutates; distinct = hash of (flavour, scenario, schedule).".into();
     ctx.assumptions = vec![
         "the scheduler controls lock-acquisition order only (the adjacency lists are the only shared mutable state and are only touched under their lock); weak-memory effects and the writer-preference queue of std::sync::RwLock are not modelled by the scheduler — the latter is covered by the re-entrant-read detector plus the free-running tier".into(),
